@@ -33,11 +33,13 @@ def tasks(tier, pid):
         t += [('fill_to', u) for u in ('uL', 'mL', 'mg', 'g', 'mmol', 'umol')]
     if pid in ('C02', 'C01'):
         t += [('transfer', u) for u in ('uL', 'nL', 'mL', 'mg', 'ug', 'g', 'mmol', 'nmol', 'umol')]
+    if pid in ('C01', 'C03'):
+        t += [('transfer_all', u) for u in ('uL', 'mg', 'ng', 'mmol', 'nmol')]
     return t
 
 
 SERVES = {'accuracy[get_concentration]': ['C10'], 'accuracy[parse_concentration]': ['C14'], 'accuracy[fill_to]': ['C11'],
-          'accuracy[fill_to/others]': ['C11'], 'accuracy[size]': ['C02'], 'accuracy[conserve]': ['C01'], 'safe': ['C10', 'C14'],
+          'accuracy[fill_to/others]': ['C11'], 'accuracy[size]': ['C02'], 'accuracy[conserve]': ['C01'], 'accuracy[conserve/all]': ['C01'], 'accuracy[nonneg/all]': ['C01', 'C03'], 'safe': ['C10', 'C14'],
           'accept': ['C11', 'C02', 'C01']}
 
 REPLAY = r'''
@@ -234,6 +236,53 @@ def run_fill_to(pid, unit):
     return finish(pid, res)
 
 
+def run_transfer_all(pid, unit):
+    """a request for (about) everything the source holds — within the rounding of the availability check on either side:
+    whatever the library decides, an accepted transfer creates or destroys nothing (per substance, up to the rounding of the
+    stored amounts) and leaves no negative remainder"""
+    res = []
+    case = f"transfer-all|{unit}"
+    p_, b_ = spec.split_unit(unit)
+
+    def body(I):
+        I.__dict__['round_mode'] = 'error'
+        C, s, w, measure, ms, vs = two_component(I)
+        D = clib.mk_container(I, 'D', 'inf', [w], [True])
+        I.assume(z3.And(D.amt[w] >= 0, D.amt[w] <= 10 ** 9))
+        I.assume(D.volume * vs == D.amt[w] * ms * spec.num(spec.factor(spec.SubSpec(2, mw(w), dens(w), sa(w)), 'mol', 'L')))
+        q = z3.Real('q')
+        cur = measure({s: C.amt[s], w: C.amt[w]}, b_)
+        qb = q * spec.num(spec.SI[p_])
+        I.assume(z3.And(qb >= cur * z3.RealVal('999999/1000000'), qb <= cur * z3.RealVal('1000001/1000000')))
+        I.__dict__['_inputs'] = dict(model_inputs(C, s, w), q=q, d_w=D.amt[w])
+        out = vc.call(I, 'Container._transfer', [D.obj, C.obj, SegStr([NumHole(q), ' ', unit])])
+        if out.kind != 'return':
+            return out                  # refusing a request above what is there is fine
+        src2, dst2 = out.value
+
+        def amts_of(o):
+            d = {}
+            for t in (s, w):
+                hit = [k_ for k_ in o.fields['contents'] if str(k_.term) == str(t)]
+                d[t] = real(o.fields['contents'][hit[0]]) if hit else z3.RealVal(0)
+            return d
+        a_src, a_dst = amts_of(src2), amts_of(dst2)
+        slack = z3.RealVal('2/10000000000')
+        I.oblige('accuracy[conserve/all]', z3.And(absz(a_src[s] + a_dst[s] - C.amt[s]) <= slack,
+                                                  absz(a_src[w] + a_dst[w] - C.amt[w] - D.amt[w]) <= slack), 'property',
+                 note='taking everything: source + destination hold what they held, up to the rounding of the stored amounts')
+        I.oblige('accuracy[nonneg/all]', z3.And(a_src[s] >= 0, a_src[w] >= 0), 'property',
+                 note='taking everything leaves no negative remainder')
+        return out
+    for I, out in vc.explore(body, contracts=clib.contracts(), max_paths=60):
+        if isinstance(out, vc.Outcome) and out.kind == 'unsupported':
+            res.append(vc.unsupported_result('Container._transfer/unsupported', case, out.note))
+            continue
+        res += vc.discharge(I, 'Container._transfer/', case, 30000, inputs=I.__dict__.get('_inputs'),
+                            replay_fn=lambda mv, ob: replay_job('transfer', mv, {'unit': unit, 'q': None, 'd_w': None}))
+    return finish(pid, res)
+
+
 def run_transfer(pid, unit):
     """Container.transfer of q `unit` moves q up to a relative 1e-8 and conserves each substance up to 2e-10 storage units"""
     res = []
@@ -296,3 +345,61 @@ def finish(pid, res):
                 continue
         out.append(dict(r, name=f'{pid}/rounding-placement/' + r['name']))
     return out
+
+
+def finish(pid, res):
+    out = []
+    for r in clib.dedupe(res):
+        cl = r['name'].split('/', 1)[1] if '/' in r['name'] else r['name']
+        if r['kind'] == 'property' and r['verdict'] != 'unsupported':
+            if cl not in SERVES:
+                raise RuntimeError(f"clause {cl!r} is mapped to no property (SERVES)")
+            if pid not in SERVES[cl]:
+                continue
+        out.append(dict(r, name=f'{pid}/rounding-placement/' + r['name']))
+    return out
+
+
+def run_create_solution_from(pid, cunit, qunit):
+    """create_solution_from(stock of s in w, s, 'c cunit', w, 'T qunit'): concentration and total within the library's own
+    1e-6 band although every internal rounding may err by half a unit of the 10th decimal (stocks of at least 1 uL)"""
+    from contracts.c14_grammar import concentration_denotation
+    res = []
+    case = f"create_solution_from|{cunit}|{qunit}"
+    pq, bq = spec.split_unit(qunit)
+
+    def body(I):
+        I.__dict__['round_mode'] = 'error'
+        C, s, w, measure, ms, vs = two_component(I)
+        mult, nb, db = concentration_denotation('1 ' + cunit, I.cfg.data['default_weight_volume_units'])
+        S = spec.SubSpec(1, mw(s), dens(s), sa(s))
+        cur = C.amt[s] * ms * spec.num(spec.factor(S, 'mol', nb)) / measure({s: C.amt[s], w: C.amt[w]}, db) / spec.num(mult)
+        c, T = z3.Real('c'), z3.Real('T')
+        I.assume(z3.And(c >= cur / 100, c <= cur / 2))
+        Tb = T * spec.num(spec.SI[pq])
+        curq = measure({s: C.amt[s], w: C.amt[w]}, bq)
+        I.assume(z3.And(Tb >= curq / 100, Tb <= curq / 2, Tb >= z3.RealVal('1/100000000')))
+        I.__dict__['_inputs'] = dict(model_inputs(C, s, w), c=c, T=T)
+        out = vc.call(I, 'Container.create_solution_from', [C.obj, SubV(s), SegStr([NumHole(c), ' ', cunit]), SubV(w),
+                                                             SegStr([NumHole(T), ' ', qunit]), NameV(z3.Const('nn', Name))])
+        if out.kind != 'return':
+            I.oblige('accept', False, 'property', note=f'{out.exc.cls} at line {out.exc.lineno} for a dilution the stock can serve')
+            return out
+        new = out.value[-1]
+        amts = {}
+        for t in (s, w):
+            hit = [k_ for k_ in new.fields['contents'] if str(k_.term) == str(t)]
+            amts[t] = real(new.fields['contents'][hit[0]]) if hit else z3.RealVal(0)
+        got_c = amts[s] * ms * spec.num(spec.factor(S, 'mol', nb)) / measure(amts, db) / spec.num(mult)
+        band = z3.RealVal('2/1000000')
+        I.oblige('accuracy[conc]', absz(got_c - c) <= band * c, 'property',
+                 note=f'the new solution has the requested concentration ({cunit}) within the 1e-6 band')
+        I.oblige('accuracy[total]', absz(measure(amts, bq) - Tb) <= band * Tb, 'property',
+                 note=f'the new solution has the requested total ({qunit}) within the 1e-6 band')
+        return out
+    for I, out in vc.explore(body, contracts=clib.contracts(), max_paths=80):
+        if isinstance(out, vc.Outcome) and out.kind == 'unsupported':
+            res.append(vc.unsupported_result('Container.create_solution_from/unsupported', case, out.note))
+            continue
+        res += vc.discharge(I, 'Container.create_solution_from/', case, 60000, inputs=I.__dict__.get('_inputs'))
+    return finish(pid, res)
